@@ -195,3 +195,43 @@ def d4_paired_methods_follow_overrides(ctx, family: str, pairs: Tuple[Tuple[str,
                               construct=f"{k.name}.{iname} bypasses {xm.cls.name}.{xname}")
     if n < 2:
         ctx.floor("D4", 99)
+
+
+# delegations that deliberately go to another accessor (confirmed by reading; one line of reason each)
+CROSS_DELEGATIONS = {
+    ("ReverseRule", "get_op_symbol"): "the reverse form shows the strategy's symbol for the reverse operation",
+}
+
+
+def d5_rule_delegates_to_the_same_question(ctx) -> None:
+    """A rule answers questions about itself by asking its strategy the *same* question
+    (`is_two_way` -> `strategy.is_two_way`, `is_reversible` -> `strategy.is_reversible`, ...).  The
+    questions are different predicates with the same signature; a delegate that asks the
+    neighbouring one type-checks, passes every test whose strategies answer both alike, and
+    files one-way rules as equivalences (or reverses what cannot be reversed)."""
+    P = ctx.P
+    strat_methods: Set[str] = set()
+    for k in P.subclasses(P.need_class("AbstractStrategy"), strict=False):
+        strat_methods |= set(k.methods)
+    n = 0
+    for cls in P.subclasses(P.need_class("AbstractRule"), strict=False):
+        for m in cls.methods.values():
+            body = [s for s in m.node.body if not (isinstance(s, ast.Expr) and isinstance(s.value, ast.Constant))]
+            if len(body) != 1 or not isinstance(body[0], ast.Return) or not isinstance(body[0].value, ast.Call):
+                continue
+            c = body[0].value
+            if not (isinstance(c.func, ast.Attribute) and isinstance(c.func.value, ast.Attribute) and isinstance(c.func.value.value, ast.Name)
+                    and c.func.value.value.id == "self" and c.func.value.attr in ("strategy", "_strategy")):
+                continue
+            if m.name not in strat_methods:
+                continue
+            n += 1
+            if c.func.attr == m.name:
+                ctx.ok("D5", f"{m.qualname} asks its strategy the same question")
+            elif (cls.name, m.name) in CROSS_DELEGATIONS:
+                ctx.ok("D5", f"{m.qualname} -> {c.func.attr}: {CROSS_DELEGATIONS[(cls.name, m.name)]}")
+            else:
+                ctx.violation("D5", c, f"{m.qualname} answers with `{norm(c.func)}`, although the strategy has a `{m.name}` of its own: a strategy for which the two differ "
+                              f"(two-way but not reversible, reversible but not two-way) is treated as the other kind")
+    if n < 4:
+        ctx.floor("D5", 99)
